@@ -526,7 +526,7 @@ def model_expr(name: str, p, m, conv: Conv, info, before: str, base: int) -> str
             scopes.append(clist([gref(fg)] + [gref(g) for g in f.subgraphs()]))
         return f"(fst (output_fix {clist(scopes)} {before} {base}))"
     if name == "rmfunc":
-        return f"(remove_unused_funcs {FUEL} {before})"
+        return f"(remove_unused_funcs_checked {FUEL} {before})"
     if name == "inline":
         return f"(fst (fst (inline_pass {FUEL} {before} {base} {conv.next_g})))"
     if name == "defattr":
